@@ -91,7 +91,7 @@ def _case(draw):
     b = draw(_scalar().filter(lambda v: v[0] == kind))
     return {"fam": "swap", "a": a, "b": b, "cls": draw(st.sampled_from(["heap", "stack", "arr"])),
             "cont": draw(st.booleans()), "items": [draw(st.lists(st.integers(-5, 5), max_size=5)), draw(st.lists(st.integers(-5, 5), max_size=5))],
-            "ck": draw(st.sampled_from(["Array", "List"]))}
+            "ck": draw(st.sampled_from(["Array", "List", "Table", "Tree", "Tuple", "Table", "Tree"]))}
 
 
 def strategy(tier):
@@ -359,10 +359,44 @@ def run_case(ctx, case):
         a, b = case["a"], case["b"]
         if case["cont"]:
             ck = case["ck"]
-            P.add("new %%0 heap t:%s t:Int %s" % (ck, " ".join("i:%d" % x for x in case["items"][0])))
-            P.add("new %%1 heap t:%s t:Int %s" % (ck, " ".join("i:%d" % x for x in case["items"][1])))
-            ra = "%s[%s]" % (ck[0], ",".join("i%d" % x for x in case["items"][0]))
-            rb = "%s[%s]" % (ck[0], ",".join("i%d" % x for x in case["items"][1]))
+            seen = {}
+            if ck in ("Table", "Tree"):
+                # maps: keys = the distinct items, value = position; the dump is whatever the container shows before
+                # the swap (slot order travels with the value), plus len and get of every key afterwards
+                for s_, its in ((0, case["items"][0]), (1, case["items"][1])):
+                    P.add("new %%%d heap t:%s t:Int t:Int" % (s_, ck))
+                    for j, x in enumerate(its):
+                        P.add("set %%%d i:%d i:%d" % (s_, x, j))
+                P.add("repr %0", lambda o: seen.__setitem__("a", o))
+                P.add("repr %1", lambda o: seen.__setitem__("b", o))
+                P.add("swap %0 %1")
+                P.add("repr %0", lambda o: None if o == seen.get("b") else "after swap the first %s shows %s, the second one showed %s before" % (ck, o, seen.get("b")))
+                P.add("repr %1", lambda o: None if o == seen.get("a") else "after swap the second %s shows %s, the first one showed %s before" % (ck, o, seen.get("a")))
+                for s_, its in ((0, case["items"][1]), (1, case["items"][0])):
+                    last = {x: j for j, x in enumerate(its)}
+                    P.add("len %%%d" % s_, expect_ok(str(len(last))))
+                    for x, j in last.items():
+                        P.add("get %%%d i:%d" % (s_, x), expect_ok("i%d" % j))
+                    P.add("set %%%d i:77 i:1" % s_)
+                    P.add("len %%%d" % s_, expect_ok(str(len(last) + (0 if 77 in last else 1))))
+                P.add("del %0")
+                P.add("del %1")
+                fail, obs = P.run(ctx.executor("ex_vm"))
+                return Result(fail, case["items"][0] != case["items"][1], ev + ["swap-" + ck], None)
+            if ck == "Tuple":
+                for s_, its in ((0, case["items"][0]), (1, case["items"][1])):
+                    refs = []
+                    for j, x in enumerate(its):
+                        P.add("new %%%d heap t:Int i:%d" % (20 + 10 * s_ + j, x))
+                        refs.append("%%%d" % (20 + 10 * s_ + j))
+                    P.add("new %%%d heap t:Tuple %s" % (s_, " ".join(refs)))
+            else:
+                P.add("new %%0 heap t:%s t:Int %s" % (ck, " ".join("i:%d" % x for x in case["items"][0])))
+                P.add("new %%1 heap t:%s t:Int %s" % (ck, " ".join("i:%d" % x for x in case["items"][1])))
+            tag = {"Array": "A", "List": "L", "Tuple": "U"}[ck]
+            ra = "%s[%s]" % (tag, ",".join("i%d" % x for x in case["items"][0]))
+            rb = "%s[%s]" % (tag, ",".join("i%d" % x for x in case["items"][1]))
+            ev.append("swap-" + ck)
         else:
             cls = case["cls"] if a[0] != "Type" else "stack"
             if a[0] == "Type":
